@@ -115,11 +115,21 @@ SEQ_W = (8, 5, 4, 3, 3, 2, 1, 1, 1, 1, 2, 1, 1, 2, 1, 2)
 
 
 def run_sequential(tape, out: Outcome) -> None:
+    try:
+        _run_sequential(tape, out)
+    except T.SimAbort:
+        raise
+    except Exception as e:  # the subject raised where the harness observes it (items(), copy, pickle ...)
+        out.violate(("seq", "raised-in-observation", type(e).__name__), error=repr(e)[:200], **out.decoded)
+
+
+def _run_sequential(tape, out: Outcome) -> None:
     cap = 1 + tape.draw(4)
     nops = 1 + tape.draw(14)
     subjects = [(_mk_cache(cap), LRUModel(cap))]
     val = 0
     ops_dec = []
+    out.decoded = {"kind": "sequential", "capacity": cap, "ops": ops_dec}
     evictions = 0
     extra_subjects = 0
     for i in range(nops):
